@@ -105,6 +105,22 @@ template <class T> static void numeric (Gen<T>& g, int it)
             r.raw ("xyzt", jv (xyzT)); r.raw ("nr", jv (nr)); r.raw ("mnr", jv (nre.toMatrix33 ()));
             r.raw ("a", jv (a)); r.raw ("sr", jv (sr)); r.raw ("sm0", jv (sm0)); r.raw ("sm1", jv (sm1)); r.emit ();
         }
+        // makeNear towards a target held in ANOTHER order ("the target" is then the target re-expressed in this order):
+        // the rotating-frame order whose word differs in the frame bit only, then any of the 24 orders
+        if (oi < 6)
+            for (int k = 0; k < 2; ++k)
+            {
+                int c2 = k == 0 ? (ORDERS[oi] ^ 1) : ORDERS[(oi * 5 + it * 3 + 1) % 24];
+                if (c2 == ORDERS[oi]) c2 = ORDERS[(oi + 12) % 24];      // the same order is the enear record above (the target is then used as given)
+                typename Euler<T>::Order o2 = (typename Euler<T>::Order) c2;
+                Vec3<T> tgt ((T) (g.full () * 3), (T) (g.full () * 1.5), (T) (g.full () * 3));
+                if (k == 0 && it % 2 == 0) tgt.z = -tgt.x;
+                Euler<T> target (tgt, o2), tre (target, o);
+                Euler<T> n = e; n.makeNear (target);
+                Rec r ("enear2"); r.str ("t", t); r.num ("code", ORDERS[oi]); r.num ("code2", c2); r.raw ("m", jv (m3)); r.raw ("target", jv (tgt));
+                r.raw ("mtgt", jv (target.toMatrix33 ())); r.raw ("tre", jv ((Vec3<T>) tre)); r.raw ("mtre", jv (tre.toMatrix33 ())); r.num ("ordtre", (int) tre.order ());
+                r.raw ("near", jv ((Vec3<T>) n)); r.raw ("mnear", jv (n.toMatrix33 ())); r.num ("ordnear", (int) n.order ()); r.emit ();
+            }
     }
     // exact gimbal lock: every signed axis-permutation rotation matrix (entries exactly 0, +-1), every order
     if (it == 0)
